@@ -301,6 +301,7 @@ def run_base_capa(
     # Used to get the final set of anomalies after the loop.
     opt_anomaly_starts = np.repeat(np.nan, n)
     starts = np.array([], dtype=int)
+    pending_prunes = []
 
     ts = np.arange(n)
     for t in ts:
@@ -342,9 +343,14 @@ def run_base_capa(
         # Pruning the admissible starts
         penalty_sum = collective_alpha + collective_betas.sum()
         saving_too_low = candidate_savings + penalty_sum < opt_savings[t + 1]
+        # A start with too low saving can still be optimal for the next
+        # min_segment_length - 1 ends, as the anomaly that dominates it must be at
+        # least min_segment_length long. Its removal is delayed accordingly.
+        pending_prunes.append(starts[saving_too_low])
+        if len(pending_prunes) >= min_segment_length:
+            starts = starts[~np.isin(starts, pending_prunes.pop(0))]
         too_long_segment = starts < t - max_segment_length + 2
-        prune = saving_too_low | too_long_segment
-        starts = starts[~prune]
+        starts = starts[~too_long_segment]
 
     collective_anomalies, point_anomalies = get_anomalies(opt_anomaly_starts)
     return opt_savings[1:], collective_anomalies, point_anomalies
